@@ -54,6 +54,8 @@ def build_pe(
     data=b"",
     data_section=None,
     sec_raw=0x200,
+    vsize_mode="raw",
+    export_at_start=False,
 ):
     """Returns (image bytes, info).  export_section None = no export directory.  `data` is placed at the
     start of section `data_section` (default: the last one)."""
@@ -87,7 +89,7 @@ def build_pe(
             exp_off_in_sec = len(contents[es])
             contents[es] += bytes(0x200)
         else:
-            exp_off_in_sec = rng.choice([0, 0x10, 0x100])
+            exp_off_in_sec = 0 if export_at_start else rng.choice([0, 0x10, 0x100])
         exp_dir = struct.pack("<IIHHIIIIIII", 0, export_stamp, 0, 0, 0, 1, 0, 0, 0, 0, 0)
         contents[es][exp_off_in_sec : exp_off_in_sec + len(exp_dir)] = exp_dir
     secs = []
@@ -96,7 +98,11 @@ def build_pe(
     sec_info = []
     for i, cn in enumerate(contents):
         name = [b".text", b".rdata", b".data", b".pdata", b".rsrc", b".reloc", b".tls", b".x"][i]
-        secs.append(struct.pack("<8sIIIIIIHHI", name, len(cn), va, len(cn), raw, 0, 0, 0, 0, 0x60000020))
+        # vsize_mode "raw": VirtualSize == SizeOfRawData (gaps between sections in memory);
+        # "aligned": VirtualSize = size rounded up to the section alignment, so sections are contiguous in memory and
+        # VirtualSize != SizeOfRawData (the usual shape of .data/.bss)
+        vsize = len(cn) if vsize_mode == "raw" else (len(cn) + 0xFFF) & ~0xFFF
+        secs.append(struct.pack("<8sIIIIIIHHI", name, vsize, va, len(cn), raw, 0, 0, 0, 0, 0x60000020))
         sec_info.append({"va": va, "raw": raw, "size": len(cn)})
         if export_section == i:
             export_rva = va + exp_off_in_sec
